@@ -114,6 +114,17 @@ def Statement_document_names_expand : Prop :=
     (serDoc fb qs (St.init.run ops).store ((St.init.run ops).mgr i) Doc.empty []).2.2 = .ok (d, names) →
       ∀ u dp l, (u, dp, l) ∈ names → ∃ n, alookup d.table dp = some n ∧ n ++ l = u
 
+/-- The same for a TriG document of a dataset: ONE prefix table, but the contexts (graphs) are walked one
+    after the other, each through its own graph object and therefore its own manager (`i`: the named graphs
+    of a `Dataset` share the dataset's manager, the default graph has its own) on the common store; a prefix
+    bound or generated while one context is written is seen by the next.  After any history, for any list
+    of contexts (manager, graph name and nodes): every prefixed name `d:l` produced for an IRI `u` expands
+    through the document's final `@prefix` table back to `u`. -/
+def Statement_trig_names_expand : Prop :=
+  ∀ (ops : List Op) (fb : Bool) (cs : List (Bool × List (Str × Bool))) (d : Doc) (names : List (Str × Str × Str)),
+    (serTrig fb cs (St.init.run ops) Doc.empty []).2 = .ok (d, names) →
+      ∀ u dp l, (u, dp, l) ∈ names → ∃ n, alookup d.table dp = some n ∧ n ++ l = u
+
 /-- No operation, in any state — hence after every history — answers `Loop`: the fuel the model
     gives to the three `while` loops always suffices.  Fuel as a function of the sizes: the `ns<k>` loop
     of `compute_qname` and the `<prefix><k>` loop of `bind` stop within `len(bindings) + 1` rounds, the
@@ -191,6 +202,11 @@ theorem document_names_expand : Statement_document_names_expand := by
   exact (serDoc_all fb qs _ _ Doc.empty [] (hi.mgr i).1 (hi.mgr i).2
     (by intro u dp l hm; exact absurd hm (by simp))).2 d names h
 
+theorem trig_names_expand : Statement_trig_names_expand := by
+  intro ops fb cs d names h
+  exact (serTrig_all fb cs _ Doc.empty [] (HInv.run ops HInv.init)
+    (by intro u dp l hm; exact absurd hm (by simp))).2 d names h
+
 theorem no_loop : Statement_no_loop :=
   ⟨St.step_noloop, fun _ op => St.step_noloop _ op, pickNs_terminates, pickNumbered_terminates,
     freshP_terminates⟩
@@ -261,6 +277,16 @@ example : ((St.init.run exCollide).step (.serdoc false false [(iriX, true), (nsE
 example : (category 233, category 20013, category 120792, category 917505, category 1114111, category 1114112) =
     (catNames.idxOf "Ll", catNames.idxOf "Lo", catNames.idxOf "Nd", catNames.idxOf "Cf", catNames.idxOf "Cn", catUnknown) := by
   decide +kernel
+
+/-- TriG: the named graph (manager 0) declares `a:`; the default graph (manager 1, whose trie does not know
+    the longer namespace) meets the same prefix string `a` — re-bound in between is impossible inside one
+    document, but a `_v` prefix and a real `p_v` still collide across contexts and are kept apart -/
+example : ((St.init.run exCollide).step (.sertrig true
+      [(false, [(nsE ++ [103], false), (nsE ++ [115], false)]), (true, [(iriX, true)])])).2 =
+    .doc [(sPv, nsE), (112 :: sPv, nsEa)] := by decide
+/-- `bind_namespaces="cc"` raises NotImplementedError, an unknown mode ValueError; nothing is bound -/
+example : (St.init.step (.minit false .cc)).2 = .err .Other ∧ (St.init.step (.minit true .unknown)).2 = .err .ValueError ∧
+    (St.init.step (.minit false .cc)).1.store.namespaces = [] := by decide
 
 /-- `split_uri` on the three shapes: a hyphen before the name is left in the namespace; "abc" raises;
     slash-ab-slash-hyphen wraps round and splits after the first slash; an IRI ending in slash-hyphen
